@@ -2,7 +2,7 @@
    hand back nothing partial; every code maps to its documented message. *)
 From Coq Require Import String Lia List.
 From Econf Require Import Bytes BytesFacts Grammar CommentLoop LineBase ParserFacts ParserFile BadLines BadFacts LayeredModel LayeredScenario WorldFacts
-                          Scenario Generated_facts.
+                          Scenario Generated_facts PathFacts.
 Local Open Scope N_scope.
 
 (* a malformed line (no closing bracket, text after the bracket, empty section
@@ -64,6 +64,17 @@ Theorem C13_location_is_a_record : forall w,
   snd (wstep (fst (wstep w WErrLoc)) WErrLoc) = snd (wstep w WErrLoc).
 Proof. exact errloc_is_a_record. Qed.
 Print Assumptions C13_location_is_a_record.
+
+(* the file name recorded with an object and reported as error location
+   (real_name: what get_absolute_path makes of the caller's spelling) is
+   absolute whatever the spelling was, and resolving it again changes nothing:
+   a read by the reported name is a read of that name (PathFacts.v) *)
+Theorem C13_reported_name_absolute : forall t p, is_abs (real_name t p) = true.
+Proof. exact real_name_abs. Qed.
+Print Assumptions C13_reported_name_absolute.
+Theorem C13_reported_name_fixed_point : forall t p, real_name t (real_name t p) = real_name t p.
+Proof. exact real_name_idem. Qed.
+Print Assumptions C13_reported_name_fixed_point.
 
 Example C13_demo :
   let pre := [LComment [] 35 (bs " x"); LKey (mkKL [] (bs "a") [] (Some 61) [] (VPlain (bs "1")) [] None);
